@@ -26,13 +26,14 @@ CsB == Arr(<<BstrW(Map(<<A_EdDSA, <<UInt(4), Bstr(<<50>>)>>>>)), Map(<<<<UInt(4)
 
 \* size classes: a protected map {1: alg, 4: h'..k bytes..'} whose encoding is exactly plen bytes long
 Seq0(k) == [i \in 1..k |-> i % 251]
-KidFor(plen) == IF plen <= 28 THEN plen - 5 ELSE plen - 6
+AlgLen(n) == IF n < 24 THEN 1 ELSE 2                   \* encoded length of the alg value -1-n
+KidFor(plen, n) == IF plen <= 28 THEN plen - 4 - AlgLen(n) ELSE plen - 5 - AlgLen(n)
 SizedBase(id, n) ==
   LET plen == CASE id = 9 -> 23 [] id = 10 -> 24 [] id = 11 -> 255 [] id = 12 -> 256 [] OTHER -> 30
       pay  == CASE id = 13 -> Seq0(255) [] id = 14 -> Seq0(256) [] id = 11 -> Seq0(23) [] OTHER -> <<1, 2>>
       ext  == IF id = 12 THEN Seq0(24) ELSE IF id = 10 THEN Seq0(23) ELSE <<>>
   IN [kind |-> "sign1", ext |-> ext, payload |-> pay, slots |-> <<n>>,
-      tree |-> Arr(<<BstrW(Map(<<AlgP(n), <<UInt(4), Bstr(Seq0(KidFor(plen)))>>>>)), Map(<<>>), Bstr(pay), Bstr(Fill(1, n))>>)]
+      tree |-> Arr(<<BstrW(Map(<<AlgP(n), <<UInt(4), Bstr(Seq0(KidFor(plen, n)))>>>>)), Map(<<>>), Bstr(pay), Bstr(Fill(1, n))>>)]
 
 \* base = [kind, tree, ext, payload (supplied by verifier when detached), bodyprot (standalone Signature only), slots = <<alg n ...>>]
 Base(id, n) ==
@@ -156,7 +157,7 @@ Emit == st.phase # 1 \/ (Mode = "mut" /\ ~st.mut) \/
                            slots |-> [i \in 1..Len(b.slots) |-> [alg |-> 0 - 1 - b.slots[i], fill |-> 160 + i, n |-> SigLen(b.slots[i]),
                                                                 tbs |-> TbsOf(b.kind, Bytes, i, st.vext, b.payload, StandaloneBodyProt),
                                                                 signtbs |-> AltTbs(b, i)]]])>>)
-SizedBaseOK == (st.phase = 1 /\ st.d = 0 /\ ~st.mut /\ st.id \in 9..12) =>
+SizedBaseOK == (st.phase = 1 /\ st.tree = st.base.tree /\ st.top = <<>> /\ st.id \in 9..12) =>
    Len(Enc(st.tree.xs[1].x)) = (CASE st.id = 9 -> 23 [] st.id = 10 -> 24 [] st.id = 11 -> 255 [] st.id = 12 -> 256)
 \* property on the specification: encoder choices never leave the conforming set, and never change a
 \* Sig_structure except through the protected bytes themselves
